@@ -114,7 +114,12 @@ def srcRun (c : Cfg) (s : State) (k : Nat) : State :=
   | some (Act.throw e) => push { s with pc := upd s.pc k (s.pc k + 1), res := upd s.res k (SRes.exc e) } k
   | none => push { s with res := upd s.res k SRes.done } k
 
-/-- `gcb->charge(arg)`: the source receives the argument and is resumed -/
+/-- `gcb->charge(arg)`: the source receives the argument and is resumed.  The source runs *synchronously inside
+this step*, up to its next suspension: `generator::next_awt::subscribe` does `next_async(awt).resume()` on the source's
+handle directly — it does not go through the thread's `coro_queue` — so this is what the code does both when the
+consumer is plain code and when the aggregate is accessed from inside a running coroutine (active `coro_queue`).
+In particular the source reads the argument (carried by reference to the aggregator's local `arg`) before the
+aggregator goes on. -/
 def charge (c : Cfg) (s : State) (k a : Nat) : State :=
   srcRun c { s with got := upd s.got k (s.got k ++ [a]) } k
 
